@@ -125,6 +125,8 @@ impl SymbolSlab {
         let ss = self.symbol_size;
         let dest_start = dest * ss;
         let src_start = src * ss;
+        #[cfg(all(raptorq_verif, feature = "std"))]
+        crate::verif::slab_pair_event(self.data.len(), self.count, ss, dest_start, src_start);
 
         // SAFETY:
         // - dest/src are in-bounds (asserts above), so both ranges are within self.data.
